@@ -168,7 +168,8 @@ static void part2_fft(Ctx& ctx, uint64_t m) {
       GBuf d(2 * m * 8, vi == 0 ? 0 : vi == 1 ? 8 : 24);
       std::vector<cq> in(m), ex;
       for (uint64_t k = 0; k < m; ++k) {
-        double re = vi == 0 ? (k == m / 3 ? 1.0 : 0.0) : (rng.unit() - 0.5) * 4096, imv = vi == 0 ? 0.0 : (rng.unit() - 0.5) * 4096;
+        double sc = vi == 2 ? 0x1p-1021 : 1.0;  // third vector: tiny normal numbers (subnormal intermediates)
+        double re = vi == 0 ? (k == m / 3 ? 1.0 : 0.0) : (vi == 2 ? (1.0 + rng.unit()) * (rng.unit() < 0.5 ? -sc : sc) : (rng.unit() - 0.5) * 4096), imv = vi == 0 ? 0.0 : (vi == 2 ? (1.0 + rng.unit()) * sc : (rng.unit() - 0.5) * 4096);
         in[k] = {(q128)re, (q128)imv}; d.as<double>()[R.pre(k)] = re; d.as<double>()[R.pim(k)] = imv;
       }
       if (is_inv(im)) T.inverse_times_m(in, ex); else T.forward(in, ex);
@@ -330,6 +331,38 @@ static void part5(Ctx& ctx, uint64_t m) {
       if (outs.back() != outs[0]) { err = sfmt("cplx_to_tnx32(log2overhead=%u): cfg %s and cfg %s return different torus values", lo, CF[ci].name, CF[0].name); break; }
     }
     set_cfg(CFG_NATIVE);
+  }
+  // the *_simple forms under every cfg, each in a fresh process (their caches are per process / per thread): a short
+  // sequence of calls with different cache-relevant parameters must give the same integers whatever CPU features are reported
+  if (err.empty() && m >= 8) {
+    uint64_t hs[4] = {0, 0, 0, 0};
+    for (int ci = 0; ci < 4; ++ci) {
+      int pfd[2]; if (pipe(pfd)) machinery_error("pipe");
+      fflush(stdout);
+      pid_t pid = fork();
+      if (pid == 0) {
+        set_cfg(CF[ci]);
+        uint64_t h = 0xcbf29ce484222325ull;
+        GBuf x(n * 8, 8), r(n * 8, 16), r32(n * 4, 24);
+        for (uint32_t lo : {10u, 30u, 18u, 25u}) {   // complex -> torus32, inputs up to the announced overhead
+          for (uint64_t i = 0; i < n; ++i) x.as<double>()[i] = 2.0 * ldexp((double)((int64_t)(probe62(i + lo) >> 38)) + 0.25, (int)std::min<uint32_t>(lo, 24) - 24);
+          cplx_to_tnx32_simple(m, 2.0, lo, r32.as<int32_t>(), x.p); h = fnv(r32.p, n * 4, h);
+        }
+        for (uint32_t lb : {40u, 63u, 50u, 52u, 51u}) {   // double -> int64, inputs up to the announced bound, no ties
+          for (uint64_t i = 0; i < n; ++i) { int top = (int)std::min<uint32_t>(lb, 52); double y = ldexp((double)(probe62(i + lb) >> 10), top - 52); y = floor(y) + (fabs(y) < 0x1p49 ? 0.25 : 0.0); x.as<double>()[i] = y * 4.0; }
+          reim_to_znx64_simple(m, 4.0, lb, r.as<int64_t>(), x.p); h = fnv(r.p, n * 8, h);
+        }
+        if (write(pfd[1], &h, 8) != 8) _exit(3);
+        _exit(0);
+      }
+      close(pfd[1]);
+      if (read(pfd[0], &hs[ci], 8) != 8) hs[ci] = ~0ull;
+      close(pfd[0]);
+      int st; waitpid(pid, &st, 0);
+      if (!WIFEXITED(st) || WEXITSTATUS(st)) err = sfmt("the *_simple sequence crashed under cfg %s", CF[ci].name);
+      else if (hs[ci] != hs[0]) err = sfmt("a sequence of cplx_to_tnx32_simple / reim_to_znx64_simple calls with changing log2overhead / log2bound returns different integers under cfg %s and cfg %s", CF[ci].name, CF[0].name);
+      if (!err.empty()) break;
+    }
   }
   if (!err.empty()) ctx.violation(id, err);
   ctx.end_case(true);
